@@ -34,7 +34,7 @@ STAGES = {
             # the same machine on one P: sync.Pool then hands an object straight to the next Get, whoever calls it
             S("machine-1p", "^TestC07$", quick=200, thorough=2000, shards=(4, 16), timeout=("15m", "90m"), env={"GOMAXPROCS": "1"}),
             S("parallel-race", "^TestC07Parallel$", quick=80, thorough=2000, shards=(4, 16), race=True, timeout=("15m", "90m"))],
-    "C08": [S("regress", "^TestC08Regress$|^TestC08MultiStream$|^TestC08AfterLimit$"),
+    "C08": [S("regress", "^TestC08Regress$|^TestC08MultiStream$|^TestC08AfterLimit$|^TestC08NetConnStream$"),
             S("limits", "^TestC08$", quick=250, thorough=2500, shards=(6, 16), timeout=("15m", "90m"), shrinktime="90s"),
             S("bombs", "^TestC08Bombs$", tiers=("thorough",))],
     "C09": [S("regress", "^TestC09Regress$"),
